@@ -63,7 +63,9 @@ def gen_cases(rng, tier):
         if f in ('use-defsrc', '_'):
             continue
         for ot in ['(lsft x) (lsft 9)', '(lsft x) (y) (lctl y) (z)', '(lctl y) (z) (lsft x) (y)', '(lsft a) (lsft 8)', '(x) (9) (y) (8)',
-                   '(lsft x) (9) (lsft y) (8)']:
+                   '(lsft x) (9) (lsft y) (8)',
+                   # several overrides of one key: each of their outputs is a key the position can hold down
+                   '(lsft x) (y) (lctl x) (z)', '(lctl x) (z) (lsft x) (y)', '(lsft x) (8) (lctl x) (9) (lsft lctl x) (7)']:
             for held in (['d31'], ['d31', 'd32'], ['d32']):
                 cfg = '(defsrc a s d)\n(deflayer l0 %s lsft lctl)\n(defoverrides %s)' % (f, ot)
                 h = held + ['t3', 'd30', 't60', 'r30', 't2', 'r30', 't5', 'u30', 't60', 'r30', 't5', 'u31', 'u32', 't30']
